@@ -84,4 +84,28 @@ ImplOutcome(hasAttr, nfields, D, lit, args) ==
 
 Iff(hasAttr, nfields, D, lit, args) ==
     ImplOutcome(hasAttr, nfields, D, lit, args) = DocOutcome(hasAttr, nfields, D, lit, args)
+
+(***************************************************************************)
+(* The same variant under an enum-level attribute that mentions `_variant` *)
+(*   sh \in {"none", "bare_variant" ("{_variant}"), "wrap" ("[{_variant}]")}*)
+(* Doc: an enum-level attribute is "another attribute-driven case": the    *)
+(* caller's flags leave the output unchanged.  The one exception the code  *)
+(* documents (display.rs: "If shared_attr is a transparent call to         *)
+(* _variant, then we consider it being absent") is `{_variant}` under the  *)
+(* derived trait itself, i.e. Display, since `_variant` must be Display:   *)
+(* there the variant's own outcome applies.                                *)
+(***************************************************************************)
+DocShared(sh, D, inner) ==
+    IF sh = "none" \/ inner[1] = "error" THEN inner
+    ELSE IF sh = "bare_variant" /\ D = "Display" THEN inner
+    ELSE <<"inert">>
+ImplShared(sh, D, inner) ==
+    LET containsVariant == TRUE
+        calledTrait == "Display"                                   \* `{_variant}` carries no type
+        hasShared == sh # "none" /\ (sh # "bare_variant" \/ calledTrait # D \/ ~containsVariant)
+    IN  IF inner[1] = "error" THEN inner
+        ELSE IF hasShared THEN <<"inert">>                          \* match <body> { _variant => write!(f, shared) }
+        ELSE inner
+IffShared(sh, hasAttr, nfields, D, lit, args) ==
+    ImplShared(sh, D, ImplOutcome(hasAttr, nfields, D, lit, args)) = DocShared(sh, D, DocOutcome(hasAttr, nfields, D, lit, args))
 =============================================================================
